@@ -10,7 +10,7 @@ from fractions import Fraction
 from . import engine, docutil, c03, c06, c16
 
 svg = None
-CASE_TIMEOUT = 20.0
+CASE_TIMEOUT = 10.0
 
 FAULT_TEXT = {
     "tf_unclosed": ["translate(10,20", "rotate(30", "scale(2,3) translate(5"],
@@ -18,7 +18,8 @@ FAULT_TEXT = {
     "tf_few_numbers": ["matrix(1,2)", "rotate()", "translate()", "matrix(1 0 0 1 5)", "scale()", "skewX()"],
     "tf_bad_unit": ["scale(2px)", "rotate(1em)", "skewX(3px)", "translate(1em, 2ex)", "matrix(1,0,0,1,5px,6px)"],
     "colour_bad": ["rgb(1,2", "#12", "notacolour(1)", "rgb(a,b,c)", "hsl(1,2,3)", "rgb(1.5.5,2,3)", "url(#nothing)"],
-    "style_garbage": ["fill:;:;;stroke", ";;;", "fill:rgb(1,2;stroke-width:abc", "stroke-width:1em;transform:rotate("],
+    "style_garbage": ["fill:;:;;stroke", ";;;", "fill:rgb(1,2;stroke-width:abc", "stroke-width:1em;transform:rotate(", "fill:red:blue", ":::",
+                      "fill:url(http://example.org/p#q)", "a:b:c;stroke", "fill"],
     "length_garbage": ["abc", "12qq", "1e", "--5", "5 5", "calc(1+2)", ""],
     "length_negative": ["-5", "-1e3", "-0.001"],
     "d_truncated": ["M 10 10 L 20", "M 10 10 C 1 2 3 4 5", "M 10", "M 1 1 h", "M 1 1 Q 2 2"],
@@ -29,6 +30,7 @@ FAULT_TEXT = {
     "points_garbage": ["a,b c", "1,2,x,4", ",,,", "1e,2"],
     "viewbox_garbage": ["0 0 x y", "a b c d", "0,0,100", "none"],
     "viewbox_short": ["1 2 3", "5", ""],
+    "viewbox_zero": ["0 0 0 0", "0 0 0 10", "5 5 10 0"],
     "par_garbage": ["xFooYBar nonsense", "meet", "xMidYMid slice extra", ""],
     "image_bad_data": ["data:image/png;base64,@@@@", "data:image/png;base64,iVBORw0KGgo=", "data:;base64,A", "data:image/png;base64,%%%"],
 }
@@ -55,7 +57,10 @@ def faulty_attrs(doc, faults, k):
         elif kind == "style_garbage":
             o["style"] = FAULT_TEXT[kind][(k + j) % len(FAULT_TEXT[kind])]
         elif kind in ("length_garbage", "length_negative"):
-            o[LENGTH_ATTR[tok[0]]] = FAULT_TEXT[kind][(k + j) % len(FAULT_TEXT[kind])]
+            attr = LENGTH_ATTR[tok[0]]
+            if tok[0] in ("svg", "rect", "image") and (k + j) % 3 == 1:
+                attr = "height"
+            o[attr] = FAULT_TEXT[kind][(k + j) % len(FAULT_TEXT[kind])]
         elif kind.startswith("d_"):
             o["d"] = FAULT_TEXT[kind][(k + j) % len(FAULT_TEXT[kind])]
         elif kind.startswith("points_"):
@@ -137,7 +142,7 @@ def check_case(case):
     full += [["end", "", 0, False, [], []]] * depth
     over = faulty_attrs(full, faults, k)
     xml = to_xml(full, over, k)
-    faulty_ids = {full[i - 1][1] for i, _ in faults}
+    faulty_ids = {full[i - 1][1] for i, _ in faults} | {full[i - 1][1] for i in case.get("cyc", [])}   # cyclic uses are faulty elements
     inside_ids = set()
     for i, _ in faults:
         if full[i - 1][0] in ("svg", "g", "defs"):
@@ -191,16 +196,16 @@ def cases_from_dump(path, seed):
     n = 0
     for st in engine.read_dump(path):
         n += 1
-        if st["faults"]:
-            yield {"doc": st["doc"], "faults": st["faults"], "out": st["out"], "n": n, "seed": seed}
+        if st["faults"] or st["cyc"]:
+            yield {"doc": st["doc"], "faults": st["faults"], "out": st["out"], "cyc": st["cyc"], "n": n, "seed": seed}
 
 
 def run(tier, seed):
     run = engine.Run("C10", tier, seed)
     work = engine.workdir("C10")
     try:
-        consts = {"MaxTok": 4, "NFaults": 1, "MinTok": 1} if tier == "quick" else {"MaxTok": 4, "NFaults": 2, "MinTok": 1}
-        res = engine.run_tlc(work, "MC_C10", constants=consts, invariants=["RemovedIsBalanced"], timeout=7200)
+        consts = {"Full": "FALSE", "MaxTok": 4, "NFaults": 1, "MinTok": 1} if tier == "quick" else {"Full": "TRUE", "MaxTok": 4, "NFaults": 2, "MinTok": 1}
+        res = engine.run_tlc(work, "MC_C10", constants=consts, invariants=["RemovedIsBalanced", "SeedsAreCyclic"], timeout=7200)
         run.add_tlc(res, "DocFault: documents x fault placements, %s" % consts)
         n = 0
         byfault = {}
@@ -211,9 +216,9 @@ def run(tier, seed):
                 run.sample({"xml": r.get("xml"), "faults": case["faults"], "expected_ids": [o[4] for o in case["out"]]})
             n += 1
         # beyond the exhaustive bound: documents of 6..9 tokens with up to 3 faults
-        sres, vals = engine.simulate_cases(work, "MC_C10", {"MaxTok": 9, "NFaults": 3, "MinTok": 6}, num=(1 if tier == "quick" else 40), depth=14, seed=seed + 1)
+        sres, vals = engine.simulate_cases(work, "MC_C10", {"Full": "TRUE", "MaxTok": 9, "NFaults": 3, "MinTok": 6}, num=(1 if tier == "quick" else 40), depth=14, seed=seed + 1)
         run.add_tlc(sres, "DocFault on documents of 6-9 tokens, up to 3 faults, by TLC -simulate (%d behaviours)" % sres["behaviours"])
-        sim = [{"doc": v[1], "faults": v[2], "out": v[3], "n": i, "seed": seed} for i, v in enumerate(vals)]
+        sim = [{"doc": v[1], "faults": v[2], "out": v[3], "cyc": v[4], "n": i, "seed": seed} for i, v in enumerate(vals)]
         for case, r in engine.replay("harness.c10", sim, chunk=100):
             run.record(case, r, key=r.get("xml", str(case["doc"]) + str(case["faults"])))
             byfault["sim:" + str(r.get("class"))] = byfault.get("sim:" + str(r.get("class")), 0) + 1
